@@ -39,19 +39,23 @@ def applyRaw (op : BinOp) (l r : Nat) : E Nat :=
   | .shl => pure (if r ≥ 128 then 0 else (l <<< (r % 2^32 % 128)) % U128)
   | .shr => pure (if r ≥ 128 then 0 else l >>> (r % 2^32 % 128))
 
-/-- `BinOpCode::apply` -/
-def applyBin (fl : Flags) (op : BinOp) (l r : WireValue) : E WireValue := do
-  if op = .div ∧ r.bits = 0 then throw .divideByZero
-  let w ← match op.kind with
-    | .equalWidth => match l.width.combine r.width with
+/-- the `final_width` computation of `BinOpCode::apply` -/
+def binWidthE (fl : Flags) (op : BinOp) (a b : Width) : E Width :=
+  match op.kind with
+  | .equalWidth => match a.combine b with
+      | some w => pure w
+      | none => throw .runtimeMismatchedWidths
+  | .equalWidthWeak =>
+      if fl.strictBinary then match a.combine b with
         | some w => pure w
         | none => throw .runtimeMismatchedWidths
-    | .equalWidthWeak =>
-        if fl.strictBinary then match l.width.combine r.width with
-          | some w => pure w
-          | none => throw .runtimeMismatchedWidths
-        else pure (l.width.max r.width)
-    | _ => pure (.bits 1)
+      else pure (a.max b)
+  | _ => pure (.bits 1)
+
+/-- `BinOpCode::apply` -/
+def applyBin (fl : Flags) (op : BinOp) (l r : WireValue) : E WireValue :=
+  if op = .div ∧ r.bits = 0 then throw .divideByZero else do
+  let w ← binWidthE fl op l.width r.width
   let raw ← applyRaw op l.bits r.bits
   let m ← liftR w.mask
   pure ⟨raw &&& m, w⟩
